@@ -38,7 +38,7 @@ def gen_obj(rng, depth=0):
         elif r < 0.5:
             d[key] = rng.choice([True, False, None])
         elif r < 0.8:
-            d[key] = ''.join(rng.choice(['a', 'b', ' ', '\n', '"', '\\', 'é', '😀', '\t', '\r', ' ', '{', ',']) for _ in range(rng.choice([0, 1, 5, 40])))
+            d[key] = ''.join(rng.choice(['a', 'b', ' ', '\n', '"', '\\', 'é', '😀', '\t', '\r', ' ', '{', ',', '\u2028', '\u2029', '\x85', '\x0c', '\x1c']) for _ in range(rng.choice([0, 1, 5, 40])))
         elif depth < 2:
             d[key] = rng.choice([[gen_obj(rng, depth + 1) for _ in range(rng.choice([0, 1, 2]))], gen_obj(rng, depth + 1), [1, 'x', None]])
         else:
@@ -68,6 +68,8 @@ def cases(tier, rng):
 
 def real(case):
     fd, path = tempfile.mkstemp(prefix='verif-c19-')
+    # the target already holds an earlier export: dump_to_file replaces it, also when the new dataset is empty
+    os.write(fd, b'{"stale": "left over from an earlier export"}\n')
     os.close(fd)
     errs, back = [], []
     opened = []
